@@ -166,7 +166,7 @@ func (e *Engine) Generate(prop, tier string, seed uint64, run int) *sim.Plan {
 	case "C15":
 		w = weights{newbug: 6, edit: 16, commit: 2, push: 10, pull: 12, remove: 3, restart: 2, identmut: 2, cli: 34}
 	case "C14":
-		w = weights{newbug: 10, edit: 12, commit: 2, push: 14, pull: 14, fetch: 8, remove: 16, restart: 2, identmut: 2}
+		w = weights{newbug: 10, edit: 12, commit: 2, push: 14, pull: 14, fetch: 8, remove: 16, restart: 2, identmut: 2, losecache: 3}
 	case "C11":
 		w = weights{newbug: 8, edit: 30, commit: 6, push: 14, pull: 18, fetch: 1, merge: 2, remove: 3, restart: 4, cachesize: 3, losecache: 2, identmut: 4}
 	case "C12":
@@ -207,6 +207,12 @@ func (e *Engine) Generate(prop, tier string, seed uint64, run int) *sim.Plan {
 	p.Cfg["permute_refs"] = r.Chance(0.5)
 	p.Cfg["extra_idents"] = r.Intn(2)
 	p.Cfg["loaders"] = true
+	// one person working on several machines: every replica adopts the identity of replica 0 as
+	// its user (what `git bug user adopt` does), so merge commits on different replicas have the
+	// same author. Drawn from a stream of its own so that it does not shift the other draws.
+	if prop != "C14" && prop != "C09" {
+		p.Cfg["shared_user"] = sim.NewRand(sim.Mix(rs, 0x5a5a)).Chance(0.3)
+	}
 	if prop == "C14" {
 		// 0..3 remotes: replica 0 gets any subset of the hubs (possibly none), the others all of them
 		masks := []interface{}{r.Intn(1 << uint(nhub))}
@@ -336,6 +342,52 @@ func (e *Engine) Generate(prop, tier string, seed uint64, run int) *sim.Plan {
 			}
 		}
 		p.Steps = append(p.Steps, st)
+	}
+	// closing motif: several replicas merge the same new remote head concurrently. Everybody is
+	// synchronised first (so every logical clock stands at the same value), one replica publishes an
+	// edit, two others edit the same bug and pull before either pushes: their merge commits join
+	// different branches at the same logical time. Drawn from a stream of its own.
+	if mr := sim.NewRand(sim.Mix(rs, 0xC0C0)); nrep >= 3 && nhub == 1 && prop != "C14" && prop != "C09" && prop != "C15" && mr.Chance(0.35) {
+		add := func(op string, rep int, f func(*sim.Step)) {
+			id++
+			st := sim.Step{Id: id, Op: op, R: rep, D: int64(mr.Range(1, 600))}
+			if f != nil {
+				f(&st)
+			}
+			p.Steps = append(p.Steps, st)
+		}
+		bugOrd := mr.Intn(64)
+		for round := 0; round < 2; round++ {
+			for i := 0; i < nrep; i++ {
+				add("pull", i, nil)
+				add("push", i, nil)
+			}
+		}
+		order := mr.Perm(nrep)
+		edit := func(rep int) {
+			add("edit", rep, func(st *sim.Step) {
+				st.B = bugOrd
+				st.N = 1
+				st.Sub = []sim.Step{genSub(mr, id*100)}
+				st.Sub[0].K, st.Sub[0].S = "comment", "motif "+word(mr)
+				st.Sub[0].L = nil
+			})
+		}
+		edit(order[0])
+		add("push", order[0], nil)
+		edit(order[1])
+		edit(order[2])
+		add("pull", order[1], nil)
+		add("pull", order[2], nil)
+		add("push", order[1], nil)
+		add("pull", order[2], nil)
+		add("push", order[2], nil)
+		p.Cfg["closing_motif"] = true
+	}
+	if prop == "C15" && sim.NewRand(sim.Mix(rs, 0xC15E)).Chance(0.3) {
+		// git-bug takes itself out of the host repository again
+		id++
+		p.Steps = append(p.Steps, sim.Step{Id: id, Op: "wipe", R: sim.NewRand(sim.Mix(rs, 0xC15F)).Intn(nrep), D: 10})
 	}
 	if prop == "C14" && r.Chance(0.3) {
 		id++
